@@ -95,6 +95,38 @@ def gen_tables(srcdir):
     return "\n".join(out)
 
 
+@generator("Hijri.lean")
+def gen_hijri(srcdir):
+    out = ["namespace Echse.Gen\n"]
+    for cname, fn, lean in (("dat_ummulqura", "dat_ummulqura.c", "datUmmulqura"), ("dat_diyanet", "dat_diyanet.c", "datDiyanet")):
+        vals = [c_int(x) for x in c_array(read(srcdir, fn), cname)]
+        if len(vals) < 100:
+            raise ValueError("%s: only %d entries" % (cname, len(vals)))
+        out.append("/-- `%s[]` (SM, EM, then the month transitions) -/\n" % cname + lean_list(lean, vals))
+    sc = read(srcdir, "scale.c")
+    m = re.search(r"tsh\[\]\s*=\s*\{(.*?)\}\s*;", sc, re.S)
+    ent = dict(re.findall(r"\[(TYP_\w+)\]\s*=\s*(-?\d+)U", m.group(1)))
+    tsh = [int(ent[k]) % 2**32 for k in ("TYP_I", "TYP_II", "TYP_III", "TYP_IV")]
+    out.append("/-- `tsh[]` (as 32-bit unsigned values) -/\n" + lean_list("scaleTsh", tsh))
+    m = re.search(r"epo\[\]\s*=\s*\{(.*?)\}\s*;", sc, re.S)
+    ent = dict(re.findall(r"\[(EPO_\w+)\]\s*=\s*(\d+)U", m.group(1)))
+    out.append("/-- `epo[]` indexed by EPO_ASTRO = 0, EPO_CIVIL = 1 -/\n" + lean_list("scaleEpo", [int(ent["EPO_ASTRO"]), int(ent["EPO_CIVIL"])]))
+    hm = [c_int(x) for x in c_array(func_body(sc, "hij2mjd"), "m")]
+    if len(hm) != 13:
+        raise ValueError("hij2mjd m[]: %d entries" % len(hm))
+    out.append("/-- `m[]` of hij2mjd -/\n" + lean_list("hijMonthStart", hm))
+    md = [c_int(x) for x in c_array(func_body(sc, "__ndim_greg"), "mdays")]
+    if len(md) != 13:
+        raise ValueError("__ndim_greg mdays[]: %d entries" % len(md))
+    out.append("/-- `mdays[]` of __ndim_greg -/\n" + lean_list("scaleMdays", md))
+    t = [c_int(x) for x in c_array(func_body(sc, "__wday_greg"), "t")]
+    if len(t) != 12:
+        raise ValueError("__wday_greg t[]: %d entries" % len(t))
+    out.append("/-- `t[]` of __wday_greg (Sakamoto) -/\n" + lean_list("sakamotoT", t))
+    out.append("\nend Echse.Gen\n")
+    return "\n".join(out)
+
+
 def generate(srcdir, outdir):
     os.makedirs(outdir, exist_ok=True)
     changed = []
